@@ -286,14 +286,17 @@ class Synth:
         res = fn(**kwargs, **attrs)
         outs = list(res) if isinstance(res, (tuple, list)) else [res]
         outs = [o for o in outs if o is not None][:1]
-        return [self._shaped(o) for o in outs], args
+        return [self._shaped(o, self.module(mid)) for o in outs], args
 
-    def _shaped(self, v):
+    def _shaped(self, v, mod=None):
         from spox import Tensor
 
         t = v.type
         if isinstance(t, Tensor) and t.shape is None:
-            return self.module("v17").shape(v)  # spox.build wants results of known rank
+            # spox.build wants results of known rank; Shape of the SAME opset module where it has one (a v17 Shape next
+            # to a newer node would itself be version-adapted, which spox cannot do for an input of unknown rank)
+            m = mod if mod is not None and hasattr(mod, "shape") else self.module("v17")
+            return m.shape(v)
         return v
 
     def _scan(self, mid, attrs):
@@ -976,7 +979,7 @@ def run_variadic_case(synth: Synth, vrow, mut):
     def once(mutate):
         pool = [argument(Tensor(np.float32, (3, 3))) for _ in range(4)] + [argument(Tensor(np.float32, (3,)))]
         lst = make(pool)
-        outs = [synth._shaped(o) for o in call(lst)]
+        outs = [synth._shaped(o, mod) for o in call(lst)]
         if mutate:
             if mut == "append":
                 lst.append(pool[2])
